@@ -352,7 +352,7 @@ pub fn run(cx: &mut Ctx) {
             cx.case("more_than_65536_sets", |c| {
                 c.sit("more_than_65536_sets_on_one_archive");
                 let keys = vec!["k".to_string(), "j".to_string()];
-                let h: Vec<TOp> = (0..65_600usize).map(|i| if i % 1000 == 999 { TOp::Delete("j".into()) } else { TOp::Set(keys[i % 2].clone(), format!("v{}", i % 7)) }).collect();
+                let h: Vec<TOp> = (0..70_000usize).map(|i| if i % 1000 == 999 { TOp::Delete("j".into()) } else { TOp::Set(keys[i % 2].clone(), format!("v{}", i % 7)) }).collect();
                 c.eval(h.len() as u64);
                 run_history_fmt(c, &h, &keys, true, &[], unicode, false);
             });
